@@ -162,6 +162,7 @@ func rewriteFile(path, rel string) ([]byte, bool) {
 		}
 	}
 	needVrt := false
+	var keepUsed []string // original pkg.Sel references kept alive so the original import stays used
 	addImports := map[string]string{}
 	// selector rewrites
 	if rws, ok := fileSelRewrites[rel]; ok {
@@ -179,6 +180,7 @@ func rewriteFile(path, rel string) ([]byte, bool) {
 					id.Name = rw.newName
 					se.Sel.Name = rw.newSel
 					addImports[rw.newName] = rw.newPath
+					keepUsed = append(keepUsed, rw.pkg+"."+rw.sel)
 					changed = true
 				}
 			}
@@ -245,6 +247,9 @@ func rewriteFile(path, rel string) ([]byte, bool) {
 	cfg := printer.Config{Mode: printer.UseSpaces | printer.TabIndent, Tabwidth: 8}
 	if err := cfg.Fprint(&buf, fset, f); err != nil {
 		fatal("print " + path + ": " + err.Error())
+	}
+	for _, k := range keepUsed {
+		buf.WriteString("\nvar _ = " + k + "\n")
 	}
 	return buf.Bytes(), true
 }
